@@ -172,6 +172,9 @@ pub fn gen_facts(rng: &mut Rng, o: Opts) -> Facts {
         f.terms.push(TermF { id: *id, name: gen_name(rng, o.long_names), obsolete: false, replacement: None });
     }
     let mut parents: Vec<BTreeSet<usize>> = vec![BTreeSet::new(); n];
+    // deep ontologies: half of them one pure chain (every shortest distance is the full depth),
+    // the other half a chain with side branches and shortcut edges
+    let deep_pure = o.deep && rng.chance(1, 2);
     for i in 1..n {
         if with_roots && i == 1 {
             parents[i].insert(0);
@@ -186,7 +189,7 @@ pub fn gen_facts(rng: &mut Rng, o: Opts) -> Facts {
         }
         let lo = if with_roots { 1 } else { 0 };
         let pick = |rng: &mut Rng| -> usize {
-            if o.deep && i > lo && rng.chance(15, 16) {
+            if o.deep && i > lo && (deep_pure || rng.chance(15, 16)) {
                 i - 1
             } else if rng.chance(1, 2) && i > lo + 3 {
                 rng.range((i - 3) as u64, (i - 1) as u64) as usize // recent node: builds depth
@@ -196,6 +199,9 @@ pub fn gen_facts(rng: &mut Rng, o: Opts) -> Facts {
         };
         let p = pick(rng);
         parents[i].insert(p);
+        if deep_pure {
+            continue;
+        }
         if rng.chance(if o.dense { 5 } else { 2 }, 8) {
             let p2 = pick(rng);
             parents[i].insert(p2);
@@ -236,13 +242,14 @@ pub fn gen_facts(rng: &mut Rng, o: Opts) -> Facts {
             }
             if rng.chance(1, 6) {
                 // replacement: existing term / absent id / (never 0: reserved as "none" by the format)
-                f.terms[i].replacement = Some(if rng.chance(3, 4) { *rng.pick(&ids) } else { rng.range(1, 9_999_999) as u32 });
+                f.terms[i].replacement = Some(if rng.chance(3, 4) { (*rng.pick(&ids)).max(1) } else { rng.range(1, 9_999_999) as u32 });
             }
         }
         // a chain of replacements a -> b -> c (a replacement that is itself replaced), ids ascending or not
         let lo = if with_roots { 2 + n_mod } else { 0 };
-        if n >= lo + 3 && rng.chance(1, 2) {
-            let mut cand: Vec<usize> = (lo..n).collect();
+        if n >= lo + 4 && rng.chance(1, 2) {
+            // HP:0000000 cannot be a replacement: the binary format reserves 0 for "no replacement"
+            let mut cand: Vec<usize> = (lo..n).filter(|i| ids[*i] != 0).collect();
             rng.shuffle(&mut cand);
             let mut three = vec![cand[0], cand[1], cand[2]];
             if rng.chance(2, 3) {
